@@ -38,6 +38,11 @@ import (
 
 var waitT = 3 * time.Second // bound of every wait; reached only when the server deviates
 
+// the period of the write loops' keep-alive tickers (connection.go of both transports) and how long
+// after the end of a period the harness goes on (and how long before the next one it stops)
+const keepAlivePeriod = 15 * time.Second
+const tickMargin = 1500 * time.Millisecond
+
 type source struct {
 	idx     int
 	n       int // operation number that created it
@@ -360,6 +365,12 @@ func runConversation(tag string, sc Script) (res Result) {
 		panic(fmt.Sprintf("dial: %v", err))
 	}
 	cv.c = c
+	// keep-alive periods: the write loop's ticker runs from the moment the connection is served
+	// (graphql-transport-ws; graphql-ws before the repair of the keep-alive defect) or from the first
+	// ack (graphql-ws).  A tick label waits until one more period (plus a margin) has passed since
+	// that moment; the model says which keep-alive, if any, the period brings.
+	tickAnchor := time.Now()
+	ticksWaited := 0
 	cv.noRead = sc.Flood > 0
 	var clientClosing int32
 	readerDone := make(chan struct{})
@@ -436,7 +447,11 @@ func runConversation(tag string, sc Script) (res Result) {
 			ok1, rej1 := w.initOK, w.initRej
 			w.mu.Unlock()
 			if ok1 > ok0 {
+				first := !cv.ackSeen
 				cv.waitFor("ack", from, func(f SFrame) bool { return f.Kind == "ack" })
+				if first && cv.ackSeen && sc.Proto == protoWS {
+					tickAnchor, ticksWaited = time.Now(), 0
+				}
 			}
 			after := stopsNow()
 			for i := range before {
@@ -506,6 +521,18 @@ func runConversation(tag string, sc Script) (res Result) {
 		obs = append(obs, snapshot())
 	}
 
+	doTick := func(l Label) {
+		n := len(performed)
+		performed = append(performed, l)
+		cv.log = append(cv.log, sexp.T("sent", sexp.Int(n)))
+		ticksWaited++
+		deadline := tickAnchor.Add(time.Duration(ticksWaited)*keepAlivePeriod + tickMargin)
+		for !cv.term && time.Now().Before(deadline) {
+			cv.pump(deadline)
+		}
+		obs = append(obs, snapshot())
+	}
+
 	startWord, stopWord := "start", "stop"
 	if sc.Proto == protoTWS {
 		startWord, stopWord = "subscribe", "complete"
@@ -551,6 +578,8 @@ func runConversation(tag string, sc Script) (res Result) {
 			dirty = true
 		case lEmit:
 			doEmit(l)
+		case lTick:
+			doTick(l)
 		case lSrcEnd:
 			flush()
 			if cv.term {
